@@ -1,5 +1,6 @@
 #include "base.h"
 #include <ctype.h>
+#include <fcntl.h>
 
 /* ================================================================== line arena + JSON reader */
 static char *ja_buf; static size_t ja_cap, ja_off;
@@ -148,6 +149,8 @@ void jv_print(FILE *f, const jv *v)
 
 /* ================================================================== tracking allocator */
 long al_live, al_allocs, al_fail_at, al_bad_free, al_free_null, al_total_allocs, al_total_frees;
+long al_overflow;              /* blocks whose trailing red zone was overwritten */
+#define RZ 48                  /* bytes of red zone behind every block (plain flavour; ASan has its own) */
 int al_in_call;
 blk *al_all;
 static uint64_t al_seq;
@@ -207,8 +210,9 @@ static void *al_new(size_t n)
     b = (blk*)malloc(sizeof(blk));
     payload = malloc(n ? n : 1);
 #else
-    b = (blk*)malloc(sizeof(blk) + (n ? n : 1));
+    b = (blk*)malloc(sizeof(blk) + (n ? n : 1) + RZ);
     payload = (void*)(b + 1);
+    if (b) memset((char*)payload + n, 0xFD, RZ);
 #endif
     if (!b || !payload) { fprintf(stderr, "vdrv: out of memory\n"); _exit(2); }
     b->magic = BLK_MAGIC; b->size = n; b->state = 1; b->tag = 0; b->seq = ++al_seq;
@@ -232,11 +236,45 @@ void al_free(void *p)
     b = al_find(p);
     if (!b || b->state != 1) { al_bad_free++; return; }   /* foreign or double free: recorded, not executed */
     b->state = 2; al_live--; al_total_frees++;
+#ifndef VD_ASAN
+    { size_t k; for (k = 0; k < RZ; k++) if (((unsigned char*)p)[b->size + k] != 0xFD) { al_overflow++; break; } }
+#endif
 #ifdef VD_ASAN
     free(p);                                              /* ASan now traps any later access */
 #else
     memset(p, 0xDD, b->size);                             /* stale pointers read as garbage */
 #endif
+}
+/* The library objects' undefined malloc/free/realloc are renamed to these by objcopy (tools/build.sh), so every
+ * DIRECT use of the C allocator by library code is seen here (default-hook configuration, C08 C14). */
+long al_libc_malloc_calls, al_libc_free_calls, al_libc_realloc_calls;
+void *vd_libc_malloc(size_t n);
+void vd_libc_free(void *p);
+void *vd_libc_realloc(void *p, size_t n);
+void *vd_libc_malloc(size_t n) { al_libc_malloc_calls++; return al_malloc(n); }
+void vd_libc_free(void *p) { al_libc_free_calls++; al_free(p); }
+void *vd_libc_realloc(void *p, size_t n)
+{
+    blk *b; void *q;
+    al_libc_realloc_calls++;
+    if (!p) return al_malloc(n);
+    b = al_find(p);
+    if (!b || b->state != 1) { al_bad_free++; return NULL; }
+    al_allocs++; al_total_allocs++;
+    if (al_fail_at && al_allocs == al_fail_at) return NULL;      /* a refused realloc leaves the old block alone */
+    q = al_new(n);
+    memcpy(q, p, b->size < n ? b->size : n);
+    al_free(p);
+    return q;
+}
+
+int al_check_redzones(void)
+{
+#ifndef VD_ASAN
+    blk *b; size_t k;
+    for (b = al_all; b; b = b->nextall) if (b->state == 1) for (k = 0; k < RZ; k++) if (((unsigned char*)b->payload)[b->size + k] != 0xFD) { al_overflow++; break; }
+#endif
+    return al_overflow == 0;
 }
 void al_case_begin(void)
 {
@@ -253,7 +291,7 @@ void al_case_begin(void)
     al_all = NULL;
     for (k = 0; k < usedn; k++) { tab[usedidx[k]].p = NULL; tab[usedidx[k]].b = NULL; }
     usedn = 0; tabused = 0;
-    al_live = 0; al_allocs = 0; al_fail_at = 0; al_bad_free = 0; al_free_null = 0; al_seq = 0;
+    al_live = 0; al_allocs = 0; al_fail_at = 0; al_bad_free = 0; al_free_null = 0; al_seq = 0; al_overflow = 0;
 }
 void al_window(long fail_at) { al_allocs = 0; al_fail_at = fail_at; }
 
@@ -297,10 +335,22 @@ volatile sig_atomic_t vd_armed;
 volatile int vd_fault_sig;
 volatile void *vd_fault_addr;
 static volatile long vd_progress, vd_progress_seen;
+static void last_resort(int sig)
+{
+    /* the driver itself is dying (typically the C library detected heap corruption caused by the call in flight):
+     * report the case being executed as a violation with async-signal-safe calls only, then leave */
+    char path[512], msg[900]; int fd, n;
+    snprintf(path, sizeof(path), "%s/%s-fatal.case", VD.outdir ? VD.outdir : ".", VD.prop);
+    fd = open(path, O_WRONLY | O_CREAT | O_TRUNC, 0644);
+    if (fd >= 0) { if (VD.curline) { ssize_t w = write(fd, VD.curline, strlen(VD.curline)); (void)w; } close(fd); }
+    n = snprintf(msg, sizeof(msg), "VIOLATION property=%s replay=%s :: the process was killed by signal %d while the library executed this case (heap corruption or stack exhaustion)\n", VD.prop, path, sig);
+    if (VD.curline) { ssize_t w = write(1, msg, (size_t)n); (void)w; }
+    _exit(VD.curline ? 1 : 2);
+}
 static void on_fault(int sig, siginfo_t *si, void *ctx)
 {
     (void)ctx;
-    if (!vd_armed) { signal(sig, SIG_DFL); raise(sig); return; }
+    if (!vd_armed || sig == SIGABRT) { last_resort(sig); return; }
     vd_fault_sig = sig; vd_fault_addr = si ? si->si_addr : NULL;
     vd_armed = 0;
     siglongjmp(vd_jmp, 1);
